@@ -48,7 +48,7 @@ ExtendedChars(a, b) == CW!ExtendedChars(a, b)
 
 CONSTANTS
   GStyles,      \* subset of {"popon", "rollup", "painton"} the generator may use
-  GChars,       \* set of standard character bytes (20h..7Fh) used for text
+  GChars,       \* set of <<a, b>>: text words (two standard characters 20h..7Fh, or b = 0: one character)
   GRows,        \* set of PAC rows
   GDescs,       \* set of PAC descriptions 0..31 (0..15 colour/italics, 16..31 indent; odd = underline)
   GDepths,      \* subset of 2..4
@@ -252,30 +252,32 @@ Kind(w) ==
        ELSE IF nm \in {"TO1", "TO2", "TO3"} THEN "TO"
        ELSE "Unsupported"
 
-RNull(w)     == Kind(w) = "Null" /\ Null
-RChars(w)    == Kind(w) = "Chars" /\ Chars(B1(w), B2(w))
-RPac(w)      == Kind(w) = "Pac" /\ Pac(w, PacRow(B1(w), B2(w)), B2(w))
-RMidRow(w)   == Kind(w) = "MidRow" /\ MidRow(w, B2(w))
-RRCL(w)      == Kind(w) = "RCL" /\ RCL(w)
-RRDC(w)      == Kind(w) = "RDC" /\ RDC(w)
-RRU(w)       == Kind(w) = "RU" /\ RU(w, B2(w) - 35)            \* 25h, 26h, 27h -> 2, 3, 4
-RCR(w)       == Kind(w) = "CR" /\ CR(w)
-REOC(w)      == Kind(w) = "EOC" /\ EOC(w)
-REDM(w)      == Kind(w) = "EDM" /\ EDM(w)
-RENM(w)      == Kind(w) = "ENM" /\ ENM(w)
-RBS(w)       == Kind(w) = "BS" /\ BS(w)
-RTO(w)       == Kind(w) = "TO" /\ TO(w, B2(w) - 32)
-RDER(w)      == Kind(w) = "DER" /\ DER(w)
-RSpecial(w)  == Kind(w) = "Special" /\ Special(w, B2(w))
-RExtended(w) == Kind(w) = "Extended" /\ Extended(w)
-RDup(w)      == Kind(w) = "DupControl" /\ DupControl
-ROther(w)    == Kind(w) = "OtherChannel" /\ OtherChannel(w)
-RUnsup(w)    == Kind(w) = "Unsupported" /\ Unsupported(w)
+\* named so that TLC's coverage report shows which decoder actions fired; k = Kind(w), computed once per word
+RNull(k, w)     == k = "Null" /\ Null
+RChars(k, w)    == k = "Chars" /\ Chars(B1(w), B2(w))
+RPac(k, w)      == k = "Pac" /\ Pac(w, PacRow(B1(w), B2(w)), B2(w))
+RMidRow(k, w)   == k = "MidRow" /\ MidRow(w, B2(w))
+RRCL(k, w)      == k = "RCL" /\ RCL(w)
+RRDC(k, w)      == k = "RDC" /\ RDC(w)
+RRU(k, w)       == k = "RU" /\ RU(w, B2(w) - 35)            \* 25h, 26h, 27h -> 2, 3, 4
+RCR(k, w)       == k = "CR" /\ CR(w)
+REOC(k, w)      == k = "EOC" /\ EOC(w)
+REDM(k, w)      == k = "EDM" /\ EDM(w)
+RENM(k, w)      == k = "ENM" /\ ENM(w)
+RBS(k, w)       == k = "BS" /\ BS(w)
+RTO(k, w)       == k = "TO" /\ TO(w, B2(w) - 32)
+RDER(k, w)      == k = "DER" /\ DER(w)
+RSpecial(k, w)  == k = "Special" /\ Special(w, B2(w))
+RExtended(k, w) == k = "Extended" /\ Extended(w)
+RDup(k, w)      == k = "DupControl" /\ DupControl
+ROther(k, w)    == k = "OtherChannel" /\ OtherChannel(w)
+RUnsup(k, w)    == k = "Unsupported" /\ Unsupported(w)
 
 Receive(w) ==
-  \/ RNull(w) \/ RChars(w) \/ RPac(w) \/ RMidRow(w) \/ RRCL(w) \/ RRDC(w) \/ RRU(w) \/ RCR(w) \/ REOC(w)
-  \/ REDM(w) \/ RENM(w) \/ RBS(w) \/ RTO(w) \/ RDER(w) \/ RSpecial(w) \/ RExtended(w) \/ RDup(w) \/ ROther(w)
-  \/ RUnsup(w)
+  LET k == Kind(w) IN
+  \/ RNull(k, w) \/ RChars(k, w) \/ RPac(k, w) \/ RMidRow(k, w) \/ RRCL(k, w) \/ RRDC(k, w) \/ RRU(k, w) \/ RCR(k, w)
+  \/ REOC(k, w) \/ REDM(k, w) \/ RENM(k, w) \/ RBS(k, w) \/ RTO(k, w) \/ RDER(k, w) \/ RSpecial(k, w)
+  \/ RExtended(k, w) \/ RDup(k, w) \/ ROther(k, w) \/ RUnsup(k, w)
 
 DInit ==
   /\ mode = "none" /\ depth = 2 /\ base = 15 /\ disp = EmptyMem /\ ndisp = EmptyMem /\ cur = <<15, 1>>
@@ -355,7 +357,7 @@ GNull == Has("null") /\ budget > 0 /\ CodeOk /\ Emit(0) /\ pend' = 0 /\ budget' 
 GCh2Code == Has("ch2") /\ budget > 0 /\ CodeOk /\ ph \in {"start", "row", "cr", "enm"}
             /\ (\E w \in {Ch2(WRCL), Ch2(WPac(15, 16)), Ch2(WEDM), Ch2(WEOC)} : Emit(w))
             /\ pend' = 0 /\ c2' = TRUE /\ budget' = budget - 1 /\ UNCHANGED <<ph, style, ncap, nrow, nitem>>
-GCh2Text == c2 /\ budget > 0 /\ (\E a \in GChars : Emit(WChars(a, a)))
+GCh2Text == c2 /\ budget > 0 /\ (\E p \in GChars : Emit(WChars(p[1], p[2])))
             /\ pend' = 0 /\ budget' = budget - 1 /\ UNCHANGED <<ph, style, ncap, nrow, nitem, c2>>
 
 GLine == Has("gap") /\ ph = "start" /\ ncap > 0 /\ CodeOk /\ Len(sent) > 0 /\ sent[Len(sent)] < LineMark
@@ -383,7 +385,7 @@ GPac  == /\ \/ ph = "row"
          /\ ph' = "txt" /\ nrow' = nrow + 1 /\ nitem' = 0 /\ UNCHANGED <<style, ncap>>
 
 GItem == /\ ph = "txt" /\ nitem < GMaxItems
-         /\ \/ \E a \in GChars, b \in GChars \cup {0} : EmitText(WChars(a, b))
+         /\ \/ \E p \in GChars : EmitText(WChars(p[1], p[2]))
             \/ Has("midrow") /\ \E a \in GMids : EmitCode(WMid(a))
             \/ Has("special") /\ \E k \in GSpecials : EmitCode(WSpecial(k))
             \/ Has("extended") /\ nitem > 0 /\ \E e \in GExtendeds : EmitCode(WExtended(e[1], e[2]))
